@@ -33,6 +33,10 @@ CLAIMED = {
    text="Lean theorems: PA-data hint selection equals the RFC 4120 5.2.7.5 precedence and is order independent (with the unrepaired loop refuted by witness); des3 random-to-key always yields odd parity bytes with the input's top 7 bits and never a weak key; UTF-16LE encoding injective on scalar values; s2kparams are exactly 4 big-endian octets; regenerated key/seed sizes equal the RFC sizes. String-to-key, n-fold (arithmetic definition), DR/DK, KDF-HMAC-SHA2, random-to-key values are compared with Go for the property's whole quantifier.",
    note=CRYPTO_NOTE + "n-fold: the Lean definition is arithmetic (ones'-complement sum of rotated copies) and is compared with the Go bit loop on every length 1..64 x 6 sizes; their equality is not proved.",
    technique="Lean 4 proof (finite case analysis, kernel decide over all 256 bytes / 16 weak keys, induction) + differential key values", design="5/C08"),
+ "C15": dict(
+   text="Lean theorem reads_spec: for format versions 1-4 (native byte order either way for v1/v2) the model of CCache.Unmarshal reads every well-formed file rendered by an independent writer (MIT ccache format: v1 without name types and with the realm counted, v3 doubled key type, v4 header with any fields incl. unknown tags, any number of credentials / components / addresses / authorization-data entries / key and ticket lengths, times and flags over 32 bits) back to exactly the written cache, by induction over the nested lists; lookup returns the first credential for a server name; the configuration filter removes exactly X-CACHECONF entries. Tied to Go by rendered files (field-by-field comparison), truncated / substituted / count-corrupted files (error paths, run in a memory-limited child), GetEntry/Contains/GetEntries, and clients built from caches holding real tickets.",
+   note="Version 1/2 byte order is the host's (little endian here); encoding/binary and time.Unix are external; the client part (NewFromCCache/GetCachedTicket) is differential testing only.",
+   technique="Lean 4 proof (parser/writer round trip by induction over nested lists) + differential correspondence with an independent writer", design="5/C15"),
  "C16": dict(
    text="Lean theorems over models of Realm.parseLines and ResolveRealm: the realm block parser never panics for any line sequence and nesting (the unrepaired loop is refuted by witness), rejects unpaired closing brackets and lines without '=', skips relations inside nested blocks, honours the final-value marker and the kdc port default; host-to-realm resolution returns the exact host mapping, else the mapping of the longest matching domain suffix (most specific), else nothing. Whole-file semantics (sections, comments, whitespace, key case, all boolean spellings, the four MIT duration formats, enctype names, per-realm lists, domain mappings, GetKDCs multiset, invalid files) are compared against an AST-based expectation on rendered configurations with randomised layout; realm blocks and resolution are additionally compared with the Lean models.",
    note="The file-level parser (regexp section splitting, strconv, time.ParseDuration) is not modelled at the string level: that part is differential testing against the configuration AST. Only documented syntax is rendered (no trailing comments, no '=' or '#' inside values, lower-case hosts).",
